@@ -20,6 +20,11 @@ from .seeds import rng
 
 _TOKEN_RE = re.compile(r"TK[MCFPRXAN][0-9]{4}Z")
 
+
+def _runtime_text(source_text: str) -> str:
+    """What a non-raw docstring literal with this source text evaluates to (only the escapes the generator emits)."""
+    return source_text.replace("\\f", "\f").replace("\\v", "\v")
+
 FEATURES = [
     "HOMONYMS",
     "TIE_REEXPORT",
@@ -237,8 +242,8 @@ class PackageGenerator:
             # nothing follows a description whose later lines are all indented: by Python's own docstring convention
             # (inspect.cleandoc) their common indentation is not part of the text, so the expectation is the flattened form
             for tok in _TOKEN_RE.findall(dlines[0]):
-                if tok in self.tokens.table and self.tokens.table[tok].get("lines") == dlines:
-                    self.tokens.table[tok]["lines"] = inspect.cleandoc(description).split("\n")
+                if tok in self.tokens.table and self.tokens.table[tok].get("lines") == _runtime_text(description).split("\n"):
+                    self.tokens.table[tok]["lines"] = inspect.cleandoc(_runtime_text(description)).split("\n")
         body = f"\n{indent}".join(lines)
         return f'{indent}"""{body}\n{indent}"""'
 
@@ -256,7 +261,13 @@ class PackageGenerator:
                 # every later line is indented (a list, a code block): the indentation is part of the text
                 second = f"\n\n    - first item of {tok}\n        nested under it\n    - second item"
         text = f"Summary {tok}{uni}.{second}"
-        self.tokens.table[tok]["lines"] = [ln for ln in text.split("\n")]
+        runtime = text
+        if self.f("UNICODE_DOC") and kind in "CF" and int(tok[3:7]) % 4 == 0:
+            # LaTeX in a docstring that is not a raw string: "\f" and "\v" are escapes (form feed, vertical tab), i.e. unusual
+            # characters in the middle of ONE line (no random draw: every fourth token)
+            text = text.replace(f"Summary {tok}", f"Summary {tok} \\frac{{1}}{{2}} \\varepsilon", 1)
+            runtime = _runtime_text(text)
+        self.tokens.table[tok]["lines"] = [ln for ln in runtime.split("\n")]
         return text
 
     def pick_type(self, mod: _Module, depth: int = 0) -> str:
@@ -1007,6 +1018,15 @@ class PackageGenerator:
                         '    def __init__(self, cv=None, depth=3) -> None:\n        self.best_ = {}\n')
         me_.all_classes += ["Registry", "Version", "Tuned"]
         me_.public_classes += ["Registry", "Version", "Tuned"]
+
+        # segment names whose underscores are followed by digits only (conv_3, layer_1/pool_2): the converted path differs
+        # from the Python path although no "_<letter>" occurs in it (added last, no effect on the random stream above)
+        mc_ = self.new_module(top, "conv_3")
+        mc_.body.append("def conv_3_kernel(size_2: int = 3) -> int:\n    ...\n")
+        mp_ = self.new_module(f"{top}.layer_1", "pool_2")
+        mp_.body.append("class Pool2:\n    def run_2(self, n_1: int = 1) -> int:\n        ...\n")
+        mp_.all_classes += ["Pool2"]
+        mp_.public_classes += ["Pool2"]
 
         # --- files
         files: dict[str, str] = {}
